@@ -87,3 +87,61 @@ def spacing_for(draw, start, stop, max_nodes=200):
     if not (sp > 0 and math.isfinite(sp)):
         sp = ext
     return sp
+
+
+# --------------------------------------------------------------------------
+# point clouds in general position by construction (C01, C02, C04, C06, C12, C20)
+# --------------------------------------------------------------------------
+RATIOS = [0.0, 0.0, 0.0, 1.0, -1.0, 10.0, -10.0, 100.0, -100.0, 1000.0, -1000.0]
+
+
+@st.composite
+def clouds(draw, min_n=1, max_n=40, max_exp=6, min_exp=-2, ratios=RATIOS, aspects=(1.0, 1.0, 0.1, 10.0, 3.0)):
+    """A jittered-lattice cloud: pairwise distinct points, no three exactly
+    collinear lattice artefacts thanks to the irrational-looking jitter.
+    Returns a JSON description; coordinates come from cloud_xy()."""
+    n = draw(st.integers(min_n, max_n))
+    side = max(3, int(math.ceil(math.sqrt(n))) + draw(st.integers(1, 4)))
+    cells = draw(st.lists(st.tuples(st.integers(0, side - 1), st.integers(0, side - 1)), min_size=n, max_size=n, unique=True))
+    k = draw(st.integers(min_exp, max_exp))
+    return dict(cells=[list(c) for c in cells], side=side, scale=10.0 ** k, aspect=draw(st.sampled_from(list(aspects))),
+                ratio=[draw(st.sampled_from(list(ratios))), draw(st.sampled_from(list(ratios)))])
+
+
+def cloud_xy(c):
+    """(easting list, northing list) of a cloud description"""
+    ext_e = c["scale"] * c["side"]
+    ext_n = c["scale"] * c["aspect"] * c["side"]
+    es, ns = [], []
+    for a, b in c["cells"]:
+        es.append(c["ratio"][0] * ext_e + c["scale"] * (a + JITTER[(5 * a + 3 * b) % 12]))
+        ns.append(c["ratio"][1] * ext_n + c["scale"] * c["aspect"] * (b + JITTER[(a + 7 * b + 4) % 12]))
+    return es, ns
+
+
+def cloud_query(c, fracs):
+    """points at fractional lattice positions [[fa, fb], ...] of the cloud's frame"""
+    ext_e = c["scale"] * c["side"]
+    ext_n = c["scale"] * c["aspect"] * c["side"]
+    return ([c["ratio"][0] * ext_e + c["scale"] * fa for fa, fb in fracs], [c["ratio"][1] * ext_n + c["scale"] * c["aspect"] * fb for fa, fb in fracs])
+
+
+@st.composite
+def data_values(draw, n, kind=None):
+    """finite data: magnitudes 1e-6..1e6 by default, zeros, repeats, sign mixes"""
+    kind = kind or draw(st.sampled_from(["unit", "int", "big", "small", "mixed"]))
+    if kind == "unit":
+        return draw(st.lists(finite(-1, 1), min_size=n, max_size=n))
+    if kind == "int":
+        return [float(v) for v in draw(st.lists(st.integers(-20, 20), min_size=n, max_size=n))]
+    if kind == "big":
+        return draw(st.lists(finite(-1e6, 1e6), min_size=n, max_size=n))
+    if kind == "small":
+        return draw(st.lists(finite(-1e-6, 1e-6), min_size=n, max_size=n))
+    if kind == "huge":
+        return draw(st.lists(finite(-1e100, 1e100), min_size=n, max_size=n))
+    return draw(st.lists(st.one_of(st.just(0.0), finite(-1e3, 1e3), st.sampled_from([1.0, -1.0, 5.0])), min_size=n, max_size=n))
+
+
+def weights_values(n):
+    return st.lists(st.one_of(st.integers(1, 9).map(float), finite(0.01, 100)), min_size=n, max_size=n)
